@@ -192,7 +192,14 @@ func (g *G) time() time.Time {
 func (g *G) duration() time.Duration {
 	if !g.WF && g.R.Intn(4) == 0 {
 		// outside KMIP's interval range: negative, fractional, beyond 2^32 seconds
-		switch g.R.Intn(4) {
+		switch g.R.Intn(6) {
+		case 4:
+			// long intervals one nanosecond short of a whole second: whatever computes the seconds must truncate exactly
+			// (a float64 cannot hold 2^24 s + 999999999 ns)
+			return []time.Duration{(1<<24)*time.Second + 999999999, 365*24*time.Hour - 1, (1<<31)*time.Second + 999999999, (1<<32-1)*time.Second + 999999999,
+				(1<<24+12345)*time.Second + 999999800}[g.R.Intn(5)]
+		case 5:
+			return time.Duration(1<<24+g.R.Int63n(1<<31))*time.Second + 999999000 + time.Duration(g.R.Intn(1000))
 		case 0:
 			return -time.Second * time.Duration(1+g.R.Intn(100))
 		case 1:
